@@ -129,7 +129,8 @@ impl EmbeddingSlab {
     /// * `initial_capacity` - Initial number of embeddings to pre-allocate
     #[must_use]
     pub fn new(dimension: usize, initial_capacity: usize) -> Self {
-        let chunk_capacity = DEFAULT_CHUNK_SIZE / dimension;
+        // dimension 0 can only come from a damaged snapshot; it must not divide by zero
+        let chunk_capacity = DEFAULT_CHUNK_SIZE / dimension.max(1);
         let chunk_capacity = chunk_capacity.max(1);
 
         let num_chunks = (initial_capacity / chunk_capacity).max(1);
@@ -441,6 +442,13 @@ impl EmbeddingSlab {
         let slab = Self::new(snapshot.dimension, snapshot.embeddings.len().max(1));
 
         for (entity, compressed) in snapshot.embeddings {
+            if !compressed.is_well_formed() {
+                tracing::warn!(
+                    entity = %entity.as_u64(),
+                    "Skipping malformed embedding in snapshot"
+                );
+                continue;
+            }
             let dense = compressed.to_dense();
             if let Err(e) = slab.set(entity, &dense) {
                 tracing::warn!(
@@ -570,6 +578,25 @@ impl CompressedEmbedding {
         }
 
         Self::Dense(vector.to_vec())
+    }
+
+    /// Whether the stored form can be expanded: positions inside the dimension, a
+    /// consistent tensor train. Anything built by `compress` is; data read from a
+    /// snapshot file need not be.
+    #[must_use]
+    pub fn is_well_formed(&self) -> bool {
+        match self {
+            Self::Dense(_) => true,
+            Self::Sparse {
+                dimension,
+                positions,
+                values,
+            } => {
+                positions.len() == values.len()
+                    && positions.iter().all(|&p| (p as usize) < *dimension)
+            },
+            Self::TensorTrain(tt) => tt.validate().is_ok(),
+        }
     }
 
     /// Convert to a dense vector.
